@@ -19,8 +19,11 @@ RULE = ('cases: a history = constructor arguments + a list of ops (write v / rel
         'table spanning its range - doubles that are not binary32-exact, extreme/negative integers, 2^32-1, non-ASCII and long strings, '
         'every enumeration value, wildcard dates/times - commanded on each class, both paths; over the wire the decoded slot must be '
         'bit-exactly the commanded value in the PriorityValue alternative of the class datatype); binary classes with minimum on/off times '
-        '0..10 s and clock advances 0..12 s.  non-trivial = at least one accepted command; distinct by (class, path, '
-        'constructor arguments, ops).  direct: the same domains, exhaustive up to length 3 (quick; 4 for BinaryValue) / 4 (thorough; 5 for AnalogValue, BinaryValue) per class.')
+        '0..10 s and clock advances 0..12 s; commands while a hold is running: every sequence of length <= 2 (3 for BinaryValue) over '
+        '{write active/inactive, relinquish} x priorities {3, 8} + clock steps {1, 2} for minimum on/off times in {0,2,3}^2 minus (0,0), and '
+        'longer scenarios (state flipped at priority 1/3/5 during the hold, the holding command relinquished, the override relinquished before/at/after the deadline).  '
+        'non-trivial = at least one accepted command; distinct by (class, path, '
+        'constructor arguments, ops).  direct: the same domains, exhaustive up to length 3 (quick; 4 for BinaryValue) / 4 (thorough; 5 for AnalogValue, BinaryValue) per class; the hold alphabet exhaustively to length 4 (BinaryValue; 3 BinaryOutput) / 5 (4) for all 8 time configurations and both initial states.')
 TRUSTED = ['model coq/theories/Prio.v written by hand after local/object.py:_Commando.__init__/_highest_priority_value/'
            'WriteProperty, MinOnOffTask, and the store-then-monitors tail of object.py:Property.WriteProperty; tie = correspondence',
            'values are compared through a per-datatype table of 4-15 sample values spanning the range of the datatype (codes; floats keyed by float.hex, no NaN / -0.0); the expected PriorityValue alternative per datatype is a table of the harness, not read from the implementation',
@@ -596,7 +599,11 @@ def check_history(h):
     Weakest reading: refused = the call does not succeed (any exception / any non-ack answer) and every observable
     (present value, all slots, pending hold) is as before; for objects with a minimum on/off time > 0, slot 6 belongs
     to the hold mechanism (not checked against user commands), and the hold clause is only evaluated on histories that
-    do not command priority 6 themselves; a state entered with hold time 0 lifts the hold requirements until the next change."""
+    do not command priority 6 themselves.  The hold is tracked from the observations alone: a change of the present value
+    to a state with minimum time T > 0 at instant t starts a hold (state, t + T), replacing one still running; slot 6 must
+    be that state at every observation before t + T and null at the first observation at/after it; with no hold running
+    slot 6 must be null.  A change to a state with minimum time 0 starts nothing and leaves a running hold running
+    (Prio.hold_step is the same function; C17_hold_exact proves the model meets it)."""
     def fail(kind, step, **kw):
         f = {'kind': kind, 'step': step, 'history': h}
         f.update(kw)
@@ -863,8 +870,10 @@ def direct(rng, tier, focus=()):
     failures.sort(key=lambda f: len(f['history']['ops']))          # stable: the shortest history of each kind becomes the replay
     return failures, {'evaluations': n, 'distinct_nontrivial': nontriv, 'exhaustive': True,
                       'exhaustive_domain': 'all command sequences of length <= %d (<= %d for %s) over priorities {1,8,16,none} x 3 values x '
-                                           '{write, relinquish}, each of the 20 classes, direct; length <= 2 over the wire (6 classes in quick, all in thorough)'
-                                           % (LMAX, LMAX + 1, ', '.join(long_classes)),
+                                           '{write, relinquish}, each of the 20 classes, direct; length <= 2 over the wire (6 classes in quick, all in thorough); '
+                                           'binary classes with minimum on/off times in {0,2,3}^2 minus (0,0), both initial states: all sequences of length <= %d '
+                                           '(BinaryValue; %d BinaryOutput) over priorities {3,8} x {active, inactive, relinquish} + clock steps {1,2}'
+                                           % (LMAX, LMAX + 1, ', '.join(long_classes), LT, LT - 1),
                       'samples': samples}
 
 
